@@ -2,5 +2,5 @@ SPECIFICATION Spec
 CONSTANTS
   Pieces <- PiecesQuick
   Buggy = "none"
-INVARIANTS Contract NoCallAfterFailure
+INVARIANTS Contract NoCallAfterFailure Emit
 CHECK_DEADLOCK FALSE
